@@ -144,7 +144,11 @@ def searchsorted(bin_locations, inputs, eps=1e-6):
 
 def cbrt(x):
     """Cube root. Equivalent to torch.pow(x, 1/3), but numerically stable."""
-    return torch.sign(x) * torch.exp(torch.log(torch.abs(x)) / 3.0)
+    # Keep log finite at x == 0 (the smallest positive number stands in for |x|): sign(x) still makes
+    # the result 0 there, and its gradient is 0 instead of NaN.
+    smallest = torch.nextafter(torch.zeros((), dtype=x.dtype, device=x.device),
+                               torch.ones((), dtype=x.dtype, device=x.device))
+    return torch.sign(x) * torch.exp(torch.log(torch.clamp(torch.abs(x), min=smallest)) / 3.0)
 
 
 def get_temperature(max_value, bound=1 - 1e-3):
